@@ -14,6 +14,7 @@ def main():
     ap.add_argument('--repo', default=IR.REPO)
     ap.add_argument('--timeout', type=int, default=10000)
     ap.add_argument('-v', action='store_true')
+    ap.add_argument('--mode', default='seq')
     a = ap.parse_args()
     t0 = time.time()
     prog = IR.load_program(a.repo)
@@ -27,7 +28,7 @@ def main():
             continue
         t1 = time.time()
         try:
-            ex = verify.verify_function(prog, spec, con)
+            ex = verify.verify_function(prog, spec, con, mode=a.mode)
         except EngineError as e:
             print('ENGINE-ERROR', con.target, e)
             continue
